@@ -29,6 +29,9 @@ def cases(seed, tier):
     return [{"seed": seed * 1_000_003 + 16001 + i, "batch": 40} for i in range(n)]
 
 
+# explicit witnesses: {"seed": 0, "calls": [["lin"|"log", start, stop, n_points], ...]}; "inf"/"nan" as strings
+
+
 def rnd(r):
     k = r.random()
     if k < 0.30:
@@ -63,8 +66,9 @@ def run_case(case):
     vs = out["violations"]
     sigs = set()
     sample = None
-    for _ in range(case.get("batch", 40)):
-        which = r.choice(["lin", "lin", "log", "disc"])
+    explicit = list(case.get("calls", []))
+    for _ in range(len(explicit) if explicit else case.get("batch", 40)):
+        which = explicit[0][0] if explicit else r.choice(["lin", "lin", "log", "disc"])
         if which in ("lin", "log"):
             a, b = rnd(r), rnd(r)
             if r.random() < 0.5 and isinstance(a, (int, float)) and not isinstance(a, bool) and a == a and not math.isinf(a):
@@ -73,6 +77,9 @@ def run_case(case):
                 a = r.choice([0.1, 0.5, 1, 2, 3.5])
                 b = a * r.choice([2, 10, 0.5, 1])
             n = rnd(r) if r.random() < 0.3 else r.randint(-1, 7)
+            if explicit:
+                _, a, b, n = explicit.pop(0)
+                a, b = (float(x) if isinstance(x, str) else x for x in (a, b))
             cls = LinspaceGrid if which == "lin" else LogspaceGrid
             try:
                 g = cls(start=a, stop=b, n_points=n)
